@@ -391,6 +391,36 @@ Theorem C16_identical_instances_history : forall (gstate value req : Type) (draw
 Proof. exact history_identical_instances. Qed.
 Print Assumptions C16_identical_instances_history.
 
+(* ... and over MULTI-STEP SEQUENCES: the outcomes of all the calls made on one caller-owned generator object during a
+   history, and the object's final state, are those of the object threaded through these calls ALONE ([thread]: no
+   history, no global generator, no other object), whatever else the history contains (library calls with any other
+   random_state, accepted by the analysis or not; other objects; arbitrary use of the global generator) ... *)
+Theorem C16_instance_thread : forall (gstate value req : Type) (draw : req -> gstate -> value * gstate) (seed : Z -> gstate)
+    (h : list (event gstate value req)) (g : gstate) (insts : list gstate) (k : nat) (gs : gstate),
+  nth_error insts k = Some gs ->
+  forallb (fun c => global_free_w (snd c)) (calls_on gstate value req k h) = true ->
+  outcomes_on gstate value req k h (fst (fst (run_hist gstate value req draw seed h g insts))) =
+    fst (thread gstate value req draw seed gs (calls_on gstate value req k h)) /\
+  nth_error (snd (run_hist gstate value req draw seed h g insts)) k =
+    Some (snd (thread gstate value req draw seed gs (calls_on gstate value req k h))).
+Proof. exact history_instance_thread. Qed.
+Print Assumptions C16_instance_thread.
+
+(* ... hence two objects in the same state threaded through the same sequence of (entry point, arguments) -- in one
+   history or in two, sequentially or interleaved -- see the same outcomes step by step and end in the same state (what
+   the harness's instance-sequence predicate tests on the implementation) *)
+Theorem C16_threaded_instances : forall (gstate value req : Type) (draw : req -> gstate -> value * gstate) (seed : Z -> gstate)
+    (h h' : list (event gstate value req)) (g g' : gstate) (insts insts' : list gstate) (k k' : nat) (gs : gstate),
+  nth_error insts k = Some gs -> nth_error insts' k' = Some gs ->
+  calls_on gstate value req k h = calls_on gstate value req k' h' ->
+  forallb (fun c => global_free_w (snd c)) (calls_on gstate value req k h) = true ->
+  outcomes_on gstate value req k h (fst (fst (run_hist gstate value req draw seed h g insts))) =
+    outcomes_on gstate value req k' h' (fst (fst (run_hist gstate value req draw seed h' g' insts'))) /\
+  nth_error (snd (run_hist gstate value req draw seed h g insts)) k =
+    nth_error (snd (run_hist gstate value req draw seed h' g' insts')) k'.
+Proof. exact history_threaded_instances. Qed.
+Print Assumptions C16_threaded_instances.
+
 (* FUNCTIONS WITHOUT RANDOM CHOICES in histories: a call of a draw-free skeleton, anywhere in any history and whatever
    random_state is (None and the global object included), draws nothing from any generator and leaves the global
    generator exactly as it found it ... *)
@@ -610,4 +640,19 @@ Example C16_history_rng_free_example :
   nth_error (fst (fst (run_hist Z Z nat toy_draw toy_seed (h o) 0%Z []))) 0 = nth_error (fst (fst (run_hist Z Z nat toy_draw toy_seed (h o) 0%Z []))) 2 /\
   snd (fst (run_hist Z Z nat toy_draw toy_seed (h o) 0%Z [])) = 5%Z /\
   nth_error (fst (fst (run_hist Z Z nat toy_draw toy_seed (h o') 0%Z []))) 0 <> nth_error (fst (fst (run_hist Z Z nat toy_draw toy_seed (h o') 0%Z []))) 2.
+Proof. vm_compute. repeat split; try reflexivity; discriminate. Qed.
+
+(* sequences, non-vacuously: objects 0 and 1 (both RandomState(3)) are threaded, interleaved, through CPRegressor.fit, parafac
+   (randomized-SVD init, mask, padding) and tensor_ring_als_sampled, with an unseeded call and a re-seeding of the global
+   generator in between: the same three outcomes, the same final state (not the initial one), 5 + 12 + ... draws *)
+Example C16_threaded_instances_example :
+  let s1 := skeleton E_cp_regressor ex_opts in let s2 := skeleton E_parafac ex_opts in let s3 := skeleton E_tr_als_sampled ex_opts in
+  let h := [ECall toy_interp s1 (RInst 0); ECall toy_interp s1 (RInst 1); EEnv (fun g => (g + 5)%Z); ECall toy_interp s2 (RInst 0);
+            ECall toy_interp s2 RNone; ECall toy_interp s2 (RInst 1); ECall toy_interp s3 (RInst 1); ECall toy_interp s3 (RInst 0)] in
+  let r := run_hist Z Z nat toy_draw toy_seed h 0%Z [toy_seed 3%Z; toy_seed 3%Z] in
+  calls_on Z Z nat 0 h = calls_on Z Z nat 1 h /\ length (calls_on Z Z nat 0 h) = 3 /\
+  forallb (fun c => global_free_w (snd c)) (calls_on Z Z nat 0 h) = true /\
+  outcomes_on Z Z nat 0 h (fst (fst r)) = outcomes_on Z Z nat 1 h (fst (fst r)) /\
+  length (outcomes_on Z Z nat 0 h (fst (fst r))) = 3 /\
+  nth_error (snd r) 0 = nth_error (snd r) 1 /\ nth_error (snd r) 0 <> Some (toy_seed 3%Z).
 Proof. vm_compute. repeat split; try reflexivity; discriminate. Qed.
